@@ -133,8 +133,20 @@ def _case(draw):
     return case
 
 
+@st.composite
+def _parabola_case(draw):
+    """ibldsp.utils.parabolic_max is the sub-bin peak interpolation the coarse offset rests on (anchored mechanism):
+    samples of exact parabolas a - b (i - c)^2, vertex anywhere incl. outside the sampled range, 1-D and 2-D input."""
+    ns = draw(st.integers(3, 64))
+    rows = []
+    for _ in range(draw(st.integers(1, 5))):
+        c = draw(st.one_of(st.floats(-2.0, ns + 1.0), st.floats(0.51, ns - 1.51 if ns > 3 else 0.9), st.integers(0, ns - 1).map(float)))
+        rows.append({"a": draw(st.floats(-100.0, 100.0)), "b": draw(st.floats(1e-3, 10.0)), "c": float(c)})
+    return {"mode": "parabola", "ns": ns, "rows": rows, "as2d": draw(st.booleans()) or len(rows) > 1}
+
+
 def strategy(tier):
-    return _case()
+    return st.one_of(*([_case()] * 15 + [_parabola_case()]))
 
 
 def _gaps(case, rng):
@@ -436,7 +448,41 @@ def _check_map_and_drift(case, t, f, drift, th, tm, lo, hi, ctx):
     return got
 
 
+def _run_parabola(case, ctx):
+    ns, rows = case["ns"], case["rows"]
+    i = np.arange(ns)
+    x = np.stack([r["a"] - r["b"] * (i - r["c"]) ** 2 for r in rows])
+    ctx.label("parabola", "parabola_2d" if case["as2d"] else "parabola_1d")
+    arg = x if case["as2d"] else x[0]
+    r = ctx.call("C19.parabolic_max", sut.utils().parabolic_max, arg.copy())
+    if r is ctx.CRASH:
+        return
+    if not ctx.check(isinstance(r, tuple) and len(r) == 2, "C19.parabola", "parabolic_max does not return (position, value)"):
+        return
+    want = (len(rows),) if case["as2d"] else ()
+    if not ctx.check(np.shape(r[0]) == want and np.shape(r[1]) == want, "C19.parabola",
+                     lambda: f"parabolic_max returns shapes {np.shape(r[0])}, {np.shape(r[1])} for input {arg.shape}"):
+        return
+    ip, mx = np.atleast_1d(r[0]).astype(float), np.atleast_1d(r[1]).astype(float)
+    for j, row in enumerate(rows if case["as2d"] else rows[:1]):
+        im = int(np.argmax(x[j]))
+        if im == 0 or im == ns - 1:
+            ctx.label("vertex_at_edge")  # documented: no interpolation on the edge samples
+            ctx.check(ip[j] == im and mx[j] == x[j, im], "C19.parabola",
+                      lambda: f"row {row}: maximum on edge sample {im}, got ({ip[j]}, {mx[j]}) instead of ({im}, {x[j, im]})")
+        else:
+            ctx.label("vertex_interior")
+            ctx.nontrivial = ctx.nontrivial or row["c"] != round(row["c"])
+            ei = abs(ip[j] - row["c"])
+            em = abs(mx[j] - row["a"]) / (1 + abs(row["a"]))
+            ctx.stat("err_parabola_vertex", ei)
+            ctx.check(ei <= 1e-6 and em <= 1e-6, "C19.parabola",
+                      lambda: f"row {row} (ns={ns}): got vertex {ip[j]!r}, value {mx[j]!r}")
+
+
 def run_case(case, ctx):
+    if case.get("mode") == "parabola":
+        return _run_parabola(case, ctx)
     t = build(case)
     _labels(case, t, ctx)
     tsa, tsb, ida, idb = t["tsa"], t["tsb"], t["ida"], t["idb"]
